@@ -66,6 +66,12 @@ class C09(Check):
             fixed.append({"kind": "dep-sequence-inline-cfg", "world_spec": {"files": files + [{"path": "setup.cfg", "manifest": names[mn]["idx"]}]},
                           "include": seqs[0][:2], "plugins": False, "path_include": None, "extra_findings": {},
                           "sched": {"seed": 0, "policy": "fifo", "line_p": 0.0}, "workers": None, "enum_seed": None})
+        # an earlier codemod rewrites a file into something a later semgrep-detected codemod matches (stale pre-filter)
+        fixed.append({"kind": "prefilter-stale", "world_spec": {"files": [
+            {"path": "app/views.py", "raw": {"t": '\nimport requests\nrequests.get("https://example.com")\n'}},
+            {"path": "app/other.py", "raw": {"t": "import requests\nurl = input()\nrequests.get(url)\n"}}]},
+            "include": ["pixee:python/add-requests-timeouts", "pixee:python/url-sandbox"], "plugins": False, "path_include": None,
+            "extra_findings": {}, "sched": {"seed": 0, "policy": "fifo", "line_p": 0.0}, "workers": None, "enum_seed": None})
         # setup.py is both a dependency manifest and a source file that codemods rewrite
         setup_src = 'from setuptools import setup\n\nNAMES = set([1, 2, 3])\n\n\ndef f(x=[]):\n    return f"hello"\n\n\nsetup(\n    name="x",\n    install_requires=[\n        "requests",\n    ],\n)\n'
         for order in (["pixee:python/use-defusedxml", "pixee:python/use-set-literal", "pixee:python/fix-mutable-params"],
